@@ -48,7 +48,7 @@ Init ==
   \/ mode = "str" /\ W \in Widths /\ x \in {<<>>} \cup { <<a>> : a \in AllBytes }
   \/ mode = "str" /\ W \in {1, 2} /\ x \in { <<a, b>> : a \in AllBytes, b \in AllBytes }
   \/ mode = "str" /\ W \in {1, 2} /\ x \in { <<a, b, c>> : a \in AllBytes, b \in (IF Tier = "quick" THEN Bnd ELSE AllBytes), c \in Bnd }
-  \/ mode = "str" /\ W \in {4, 8, 16} /\ x \in FamilyStrs
+  \/ mode = "str" /\ W \in Widths /\ x \in FamilyStrs
 
 \* a second step re-decodes the encoding with a tail appended (keeps the machine non-trivial)
 Next == mode = "val" /\ mode' = "valtail" /\ UNCHANGED <<W, x>>
